@@ -301,8 +301,33 @@ pub fn stroke(fam: &str, seed: u64, n: usize) -> Vec<Value> {
             style["dash"] = json!(d);
             style["dash_offset"] = json!(r.range(-70, 70));
         }
-        let t = *r.pick(&[([1i64, 0, 0, 1, 0, 0], 1i64), ([1, 0, 0, 1, 0, 0], 1), ([2, 0, 0, 2, 1, 1], 4), ([0, 1, -1, 0, 24, 0], 1),
+        let mut t = *r.pick(&[([1i64, 0, 0, 1, 0, 0], 1i64), ([1, 0, 0, 1, 0, 0], 1), ([2, 0, 0, 2, 1, 1], 4), ([0, 1, -1, 0, 24, 0], 1),
                           ([2, 0, 0, 2, -20, -18], 1), ([-1, 0, 0, 1, 24, 0], 1), ([3, 4, -4, 3, 40, -20], 5), ([4, -3, 3, 4, -10, 30], 5)]);
+        if fam == "stroke-offsurf" {
+            // every vertex lies off the surface by just more than half the width; only miter tips and the corners of
+            // square caps reach onto it (a stroke must not be culled by the bounding box of its vertices)
+            let w = *r.pick(&[6i64, 8, 10]);
+            style["width"] = json!(w);
+            if r.chance(2, 3) {
+                style["join"] = json!("Miter");
+                style["miter"] = json!([10, 1]);
+            }
+            if r.chance(1, 2) {
+                style["cap"] = json!("Square");
+            }
+            let pts: Vec<(i64, i64)> = ops.iter().filter(|o| o[0] != "Z").map(|o| (o[1].as_i64().unwrap(), o[2].as_i64().unwrap())).collect();
+            let (minx, maxx) = (pts.iter().map(|p| p.0).min().unwrap(), pts.iter().map(|p| p.0).max().unwrap());
+            let (miny, maxy) = (pts.iter().map(|p| p.1).min().unwrap(), pts.iter().map(|p| p.1).max().unwrap());
+            let m = w / 2 + 1;
+            let (cx, cy) = (12 - (minx + maxx) / 2, 12 - (miny + maxy) / 2);
+            let tr = match r.range(0, 3) {
+                0 => (-m - maxx, cy),
+                1 => (24 + m - minx, cy),
+                2 => (cx, -m - maxy),
+                _ => (cx, 24 + m - miny),
+            };
+            t = ([1, 0, 0, 1, tr.0, tr.1], 1);
+        }
         // the fill rule of the path that is stroked must not matter: a stroke paints the union of its pieces
         let rule = if r.chance(1, 3) { "EvenOdd" } else { "NonZero" };
         out.push(json!({"id": format!("drv-{}-{}-{}", fam, seed, i), "fam": "stroke", "kind": "stroke", "w": 24, "h": 24, "den": 1,
